@@ -35,6 +35,8 @@ pub struct CountChain<T> {
     pub inner_points: u32,
     /// show special values (see `special_cell`) where the element type can hold them
     pub special: bool,
+    /// fault: the chain's code panics in the transition that would make `n` this value
+    pub panic_at: Option<u64>,
 }
 
 pub trait Cell: Clone + Send + 'static {
@@ -86,7 +88,7 @@ impl Cell for usize {
 
 impl<T: Cell> CountChain<T> {
     pub fn new(id: u64, dim: usize) -> Self {
-        let mut c = CountChain { id, n: 0, dim, state: vec![], inner_points: 0, special: false };
+        let mut c = CountChain { id, n: 0, dim, state: vec![], inner_points: 0, special: false, panic_at: None };
         c.render();
         c
     }
@@ -108,6 +110,10 @@ impl<T: Cell> MarkovChain<T> for CountChain<T> {
     fn step(&mut self) -> &Vec<T> {
         for _ in 0..self.inner_points {
             mcmc_sim::sched_point("stub_inner");
+        }
+        if self.panic_at == Some(self.n + 1) {
+            mcmc_sim::sim::count("fault_worker_crash_injected", 1);
+            panic!("VERIF-INJECTED chain failure in transition {} of chain {}", self.n + 1, self.id);
         }
         self.n += 1;
         self.render();
